@@ -74,6 +74,9 @@ class PanelCtx:
         self.read_stack_calls = []
 
     def V(self, name):
+        name = Sym.resolve(name)
+        if isinstance(name, Fraction):
+            return Sym(name)          # pinned on the equality locus under exploration
         if self.values is None:
             return Sym.var(name)
         if name in self.used_values:
